@@ -1148,7 +1148,17 @@ class RTCSctpTransport(AsyncIOEventEmitter):
         """
         Handle a DATA chunk.
         """
+        if self._last_received_tsn is None:
+            # no association yet
+            return
         self._sack_needed = True
+
+        # a TSN which cannot be reported in a gap ack block (16-bit offset) is dropped
+        if (
+            uint32_gt(chunk.tsn, self._last_received_tsn)
+            and (chunk.tsn - self._last_received_tsn) % SCTP_TSN_MODULO > 65535
+        ):
+            return
 
         # mark as received
         if self._mark_received(chunk.tsn):
@@ -1168,6 +1178,9 @@ class RTCSctpTransport(AsyncIOEventEmitter):
         """
         Handle a FORWARD TSN chunk.
         """
+        if self._last_received_tsn is None:
+            # no association yet
+            return
         self._sack_needed = True
 
         # it's a duplicate
